@@ -110,6 +110,48 @@ def scenario(tier, G=2, lean=False):
     return fn
 
 
+def long_history(b, sym):
+    """more than nine generations; a file first recorded in generation 2-9 and recorded again later: the summary still holds the
+    earliest digest (with its original action), and verify -pl accepts the unchanged tree"""
+    b.mkfile("R/a.txt", 1)
+    b.mkfile("R/d/b.txt", 2)
+    added_in = sym.choose("second_file_first_recorded_in_generation", [2, 5, 9])
+    n = sym.choose("generations", [10, 11, 12])
+    summary = {}
+    for g in range(1, n + 1):
+        if g == added_in:
+            b.mkfile("R/late.txt", 3)
+        fm = ["md5"] if g % 4 else ["md5", "sha1"]
+        sf = (g % 5 == 3)
+        names_before = b.manifest_names("R")
+        r = b.run("create", root="R", h=fm, n=True, sf=["R/a.txt"] if sf else ())
+        b.require(r.exit == 0 and r.exc is None, "setup-create", "generation %d: %s" % (g, r))
+        new = [m for m in b.manifests("R") if m.file not in names_before]
+        b.require(len(new) == 1, "setup-create", "generation %d wrote %d manifests" % (g, len(new)))
+        for rec in new[0].files():
+            for e in rec.entries:
+                if e.action != "failed":
+                    summary.setdefault(rec.path, {}).setdefault(e.fmt, (e.digest, e.action))
+    r = b.run("flatten", root="R", dest="OUT")
+    b.require(r.exit == 0 and r.exc is None, "flatten-exit-0", str(r))
+    pls = [p for p in b.walk_files("OUT") if posixpath.basename(p).startswith("packinglist_R_") and p.endswith(".mhl")]
+    b.require(len(pls) == 1, "one-packing-list", str(pls))
+    pl = b.read_manifest_at(pls[0])
+    b.require(sorted(rec.path for rec in pl.records) == sorted(summary), "records-for-every-path-ever-recorded", str([rec.path for rec in pl.records]))
+    for rec in pl.records:
+        got = {e.fmt: e for e in rec.entries}
+        b.require(len(got) == len(rec.entries), "one-digest-per-format", rec.path)
+        b.require(sorted(got) == sorted(summary[rec.path]), "formats-ever-recorded", "%s: %s vs %s" % (rec.path, sorted(got), sorted(summary[rec.path])))
+        for f, e in got.items():
+            b.require(truth(e.digest == summary[rec.path][f][0]), "earliest-non-failed-digest", "%s %s" % (rec.path, f))
+            b.require(e.action == summary[rec.path][f][1], "earliest-entry-action", "%s %s: %s, the earliest entry was %s" % (rec.path, f, e.action, summary[rec.path][f][1]))
+    r = b.run("verify", root="R", pl=pls[0])
+    b.require(r.exit == 0 and r.exc is None, "verify-pl-unchanged-0", "after %d generations: %s | %s" % (n, r, (r.out + r.err)[-3:]))
+    b.alter("R/late.txt", 88)
+    r = b.run("verify", root="R", pl=pls[0])
+    b.require(r.exit == 11, "verify-pl-altered-fails", str(r))
+
+
 def _harnesses(tier):
     out = ["histories with nested child histories or renames (excluded by the statement)", "flatten -n / ignore options"]
     hs = [Harness("c18-flatten", scenario(tier, 2), frontier=6, budget_s=2400,
@@ -118,6 +160,10 @@ def _harnesses(tier):
                        "between generations; flatten; packing list read independently; verify -pl on unchanged and altered tree",
                   bounds={"generations": "1-2", "formats": "md5, xxh64, sha1", "tree": "R/{a.txt,d/{b.txt,e/{c.txt}},z/{new report.txt?}}",
                           "zones": "UTC / +2 h / -7 h per generation"}, outside=out)]
+    hs.append(Harness("c18-long", long_history, frontier=4, budget_s=900,
+                      what="10-12 generations (folder and -sf runs, md5 with sha1 added now and then), a file first recorded in generation 2 / 5 / 9: "
+                           "flatten keeps the earliest entries, verify -pl accepts the unchanged tree and rejects an altered one",
+                      bounds={"generations": "10-12"}, outside=out))
     if tier != "quick":
         hs.append(Harness("c18-three-generations", scenario(tier, 3, lean=True), frontier=6, budget_s=2400,
                           what="the same with 1-3 generations, restricted format sequences (md5 | md5+sha1, then md5 | xxh64), fixed zone",
